@@ -47,7 +47,9 @@ AppliedIs(r, B, tag) ==
    (IF r.apply # "ok" THEN {} ELSE
     CV(ToSet(r.apply_warn) = {}, "" \o tag \o ":apply-warning") \cup
     CV(ItemsAre(r.res.items, B), "" \o tag \o ":result-differs-from-target") \cup
-    CV(r.res.crc_out = "ok" /\ r.res.crc = Crc(B), "" \o tag \o ":checksum-differs")))
+    CV(r.res.crc_out = "ok" /\ r.res.crc = Crc(B), "" \o tag \o ":checksum-differs") \cup
+    \* the snapshot obtained by the delta serialises like the target (the format fixes the integers)
+    CV(~Has(r, "res_wi") \/ (r.res_wi.out = "ok" /\ r.res_wi.v = WireInts(B)), "" \o tag \o ":result-serialises-differently-from-target")))
 
 JudgePair(e) ==
   LET A == SnapOfItems(e.A)
@@ -89,7 +91,9 @@ JudgePair(e) ==
         CV(e.r_ref.read = "ok" /\ e.r_ref.apply = "ok", "reference-delta-read-" \o e.r_ref.read \o (IF Has(e.r_ref, "apply") THEN "-apply-" \o e.r_ref.apply ELSE "")) \cup
         (IF e.r_ref.read # "ok" \/ e.r_ref.apply # "ok" THEN {} ELSE
          CV(ItemsAre(e.r_ref.res.items, B), "reference-delta-result-differs-from-target") \cup
-         CV(e.r_ref.res.crc = Crc(B), "reference-delta-checksum-differs")))))
+         CV(e.r_ref.res.crc = Crc(B), "reference-delta-checksum-differs") \cup
+         CV(~Has(e.r_ref, "res_wi") \/ (e.r_ref.res_wi.out = "ok" /\ e.r_ref.res_wi.v = e.ref.wb),
+            "reference-delta-result-serialises-differently-from-reference")))))
 
 \* ------------------------------------------------------------------ op "snap" (C10)
 OkNess(outs) == [j \in 1..Len(outs) |-> outs[j] = "ok"]
